@@ -142,7 +142,13 @@ def check_append(ctx: Ctx) -> None:
         ok = cfg.reachable(cfg.node_of(off[0]), cfg.node_of(rz[0])) and not cfg.reachable(cfg.node_of(rz[0]), cfg.node_of(off[0])) and cfg.reachable(cfg.node_of(rz[0]), cfg.node_of(st[0]))
         ctx.ob("11.2-offset", con, ok, "the offset must be read before the dataset is resized", node=off[0], stmt="offset read before resize")
         conds = [(t, v) for t, v in branch_conditions(cfg, cfg.node_of(st[0])) if cfg.kind[t] == "test"]
-        ok = len(conds) == 1 and not conds[0][1] and " not in " in norm_stmt(cfg.ast[conds[0][0]].test)
+        ok = len(conds) == 1
+        if ok:
+            tst = cfg.ast[conds[0][0]].test
+            neg = isinstance(tst, ast.UnaryOp) and isinstance(tst.op, ast.Not)
+            cmp_ = tst.operand if neg else tst
+            # the extension happens on the branch where the dataset name IS in the group
+            ok = isinstance(cmp_, ast.Compare) and len(cmp_.ops) == 1 and isinstance(cmp_.ops[0], (ast.In, ast.NotIn)) and (isinstance(cmp_.ops[0], ast.In) != neg) == conds[0][1]
         ctx.ob("11.2-create-or-append", con, ok, "a dataset is created when absent and extended otherwise", node=st[0], stmt="append iff the dataset exists")
     g = ctx.index.method(HD, "HDFDatabase", "__get_missing_hdf_output_dataset")
     con = cname(HD, "HDFDatabase", "__get_missing_hdf_output_dataset")
